@@ -154,7 +154,21 @@ def run_impl(ops):
             objs.append(Feature(op[1], parent=None if op[2] is None else objs[op[2]]))
         elif k == "addrel":
             _, f, rp, mn, mx, cs = op
-            objs[f].add_relation(Relation(objs[rp], [objs[c] for c in cs], mn, mx))
+            # the relation object is complete before it is attached — given all its children at construction, or created
+            # with the first / with none and filled through Relation.add_child / Relation.children before add_relation:
+            # three public ways to the same call sequence as far as the model is concerned
+            way = (f + mn + 2 * len(cs)) % 3 if len(cs) > 0 else 0
+            if way == 0:
+                rel = Relation(objs[rp], [objs[c] for c in cs], mn, mx)
+            elif way == 1:
+                rel = Relation(objs[rp], [objs[cs[0]]], mn, mx)
+                for c in cs[1:]:
+                    rel.add_child(objs[c])
+            else:
+                rel = Relation(objs[rp], [], mn, mx)
+                for c in cs:
+                    rel.children.append(objs[c])
+            objs[f].add_relation(rel)
         elif k == "delrel":
             del objs[op[1]].relations[op[2]]
         elif k == "addchild":
